@@ -18,7 +18,7 @@ from harness import impl, snap
 from harness.props import c04
 
 PROP = 'C02'
-GENERATED = ['SeedFacts']
+GENERATED = ['SeedFacts', 'GlobalReads']
 DRIVER = 'Drivers/C02.lean'
 DRIVER_MODULES = ['StarsimModel.Model.Footprint', 'StarsimModel.Model.Proto']
 RULE = ('generated base configurations x null perturbations {sampling-only intervention / analyzer with 0-5 own dists of random families at any '
@@ -30,10 +30,11 @@ ASSUMPTIONS = ['Owns / Ignores (which components a function writes / reads) are 
 FAMS = ['random', 'normal', 'expon', 'bernoulli', 'poisson', 'uniform', 'lognorm_ex', 'randint', 'weibull']
 
 
-def make_ghost(kind, fams, name):
-    """ A sampling-only intervention / analyzer: reads state, draws from its own dists, writes nothing shared """
+def make_ghost(kind, fams, name, hold_ref=False):
+    """ A sampling-only intervention / analyzer / connector: reads state, draws from its own dists, writes nothing shared.
+        With hold_ref it keeps references to the modules it reads (a common way to write a read-only component). """
     import starsim as ss
-    base = ss.Intervention if kind == 'intervention' else ss.Analyzer
+    base = dict(intervention=ss.Intervention, analyzer=ss.Analyzer, connector=ss.Connector)[kind]
 
     class Ghost(base):
         def __init__(self, fams, **kw):
@@ -41,6 +42,13 @@ def make_ghost(kind, fams, name):
             self.fams = fams
             self.mine = [getattr(ss, f)(**impl.DIST_PARS[f]) for f in fams]
             self.seen = 0
+            self.hold_ref = hold_ref
+        def init_pre(self, sim):
+            super().init_pre(sim)
+            if self.hold_ref:
+                self.watched_diseases = [d for d in sim.diseases()]
+                self.watched_network = sim.networks[0] if len(sim.networks) else None
+                self.watched_people = sim.people
         def step(self):
             ppl = self.sim.people
             au = ppl.auids
@@ -52,14 +60,20 @@ def make_ghost(kind, fams, name):
     return Ghost(fams, name=name)
 
 
+BASE_VX = dict(type='sir_vx', prob=0.4, efficacy=0.6, leaky=True, name='vxmain')
+
+
 def gen_base(rng):
     cfg = impl.gen_sim_config(rng, small=True, allow_global_readers=False)
-    cfg['networks'] = [n for n in cfg['networks'] if n['type'] not in ('erdosrenyi', 'disk')] or [dict(type='static', n_contacts=4)]
+    if rng.random() < 0.35 and cfg.get('unit') == 'year' and cfg.get('dt') in (1.0, 0.5, 0.25) and float(cfg['start']).is_integer():
+        # a base with a real vaccination programme against `sir`
+        cfg['diseases'] = [dict(type='sir', beta=0.3, init_prev=0.1, dur_inf=5, p_death=0)] + [d for d in cfg['diseases'] if d['type'] != 'sir']
+        cfg['interventions'] = [dict(BASE_VX)]
     return cfg
 
 
 def gen_pert(rng, cfg):
-    kinds = ['ghost_intervention', 'ghost_analyzer', 'extra_disease', 'extra_disease']
+    kinds = ['ghost_intervention', 'ghost_analyzer', 'ghost_connector', 'extra_disease', 'extra_disease']
     if cfg.get('unit') == 'year' and cfg.get('dt') in (1.0, 0.5, 0.25) and float(cfg['start']).is_integer():
         kinds.append('zero_vx')   # routine delivery windows are given in years and must lie on the time grid
     if len(cfg['diseases']) >= 2: kinds.append('permute_diseases')
@@ -69,6 +83,7 @@ def gen_pert(rng, cfg):
         p['fams'] = [rng.choice(FAMS) for _ in range(rng.randint(0, 5))]
         p['name'] = rng.choice(['ghost', 'zz_probe', 'a_probe'])
         p['second'] = rng.random() < 0.3      # add two of them
+        p['hold_ref'] = rng.random() < 0.6    # keeps references to the modules it reads
     elif kind == 'extra_disease':
         p['type'] = rng.choice(['sis', 'sir'])
         p['name'] = rng.choice(['ghostdis', 'aaa', 'zzz'])
@@ -76,20 +91,25 @@ def gen_pert(rng, cfg):
         p['first'] = rng.random() < 0.5
     elif kind == 'zero_vx':
         p['mode'] = rng.choice(['zero_prob', 'zero_efficacy'])
+        p['before'] = rng.random() < 0.6     # listed before / after an existing vaccination programme of the base
     return p
 
 
 def build(cfg, pert=None):
     import starsim as ss
     cfg = json.loads(json.dumps(cfg))
-    ei, ea = [], []
+    ei, ea, ec = [], [], []
+    if cfg.get('interventions'):   # routine delivery windows must lie on the time grid
+        cfg['interventions'] = [dict(i, start_year=cfg['start'], end_year=cfg['start'] + cfg['dur']) for i in cfg['interventions']]
     if pert:
         k = pert['kind']
         if k == 'ghost_intervention':
-            ei.append(make_ghost('intervention', pert['fams'], pert['name']))
-            if pert.get('second'): ei.append(make_ghost('intervention', pert['fams'][::-1], pert['name'] + '2'))
+            ei.append(make_ghost('intervention', pert['fams'], pert['name'], pert.get('hold_ref')))
+            if pert.get('second'): ei.append(make_ghost('intervention', pert['fams'][::-1], pert['name'] + '2', pert.get('hold_ref')))
         elif k == 'ghost_analyzer':
-            ea.append(make_ghost('analyzer', pert['fams'], pert['name']))
+            ea.append(make_ghost('analyzer', pert['fams'], pert['name'], pert.get('hold_ref')))
+        elif k == 'ghost_connector':
+            ec.append(make_ghost('connector', pert['fams'], pert['name'], pert.get('hold_ref')))
         elif k == 'extra_disease':
             d = dict(type=pert['type'], name=pert['name'], beta=pert['beta'], init_prev=0.1)
             if pert['type'] == 'sir': d['p_death'] = 0
@@ -98,13 +118,14 @@ def build(cfg, pert=None):
             if not any(d['type'] == 'sir' for d in cfg['diseases']):
                 cfg['diseases'] = cfg['diseases'] + []   # vaccination needs `sir`; handled by caller
             win = dict(start_year=cfg['start'], end_year=cfg['start'] + cfg['dur'])
-            if pert['mode'] == 'zero_prob':
-                cfg['interventions'] = [dict(type='sir_vx', prob=0.0, efficacy=0.9, leaky=True, **win)]
-            else:
-                cfg['interventions'] = [dict(type='sir_vx', prob=0.7, efficacy=0.0, leaky=True, **win)]
+            z = dict(type='sir_vx', name='vxnull', leaky=True, **win)
+            z.update(dict(prob=0.0, efficacy=0.9) if pert['mode'] == 'zero_prob' else dict(prob=0.7, efficacy=0.0))
+            have = list(cfg.get('interventions', []))
+            cfg['interventions'] = ([z] + have) if pert.get('before', True) else (have + [z])
         elif k == 'permute_diseases':
             cfg['diseases'] = cfg['diseases'][::-1]
-    return impl.build_sim(cfg, extra_interventions=ei, extra_analyzers=ea)
+    over = dict(connectors=ec) if ec else {}
+    return impl.build_sim(cfg, extra_interventions=ei, extra_analyzers=ea, **over)
 
 
 def base_modules(sim):
@@ -254,9 +275,15 @@ def oracle(cfg, pert):
 
 
 def search(ctx):
-    for _ in range(ctx.budget(12, 100)):
+    for it in range(ctx.budget(12, 100)):
         cfg = gen_base(ctx.rng)
         pert = gen_pert(ctx.rng, cfg)
+        if it < 2:
+            # always exercise: a base WITH a vaccination programme, a null programme listed before / after it
+            cfg = dict(cfg, unit='year', dt=1.0, start=2000, dur=6 + it)
+            cfg['diseases'] = [dict(type='sir', beta=0.3, init_prev=0.1, dur_inf=5, p_death=0)] + [d for d in cfg['diseases'] if d['type'] != 'sir']
+            cfg['interventions'] = [dict(BASE_VX)]
+            pert = dict(kind='zero_vx', mode=['zero_prob', 'zero_efficacy'][it], before=True)
         if not applicable(cfg, pert):
             cfg['diseases'] = [dict(type='sir', beta=0.3, init_prev=0.1, dur_inf=5, p_death=0)] + [d for d in cfg['diseases'] if d['type'] != 'sir']
         try:
